@@ -122,6 +122,16 @@ func (ex *Exec) intrinsicInvoke(it types.Type, m *types.Func) intrinsicFn {
 			ex.usedAssume["A-IO: net.Conn / io.Writer Write is external I/O: it may fail, returns 0 <= n <= len(p) on success and does not modify p"] = true
 			return callOut{v: TupleV{Scalar{n}, Scalar{errv}}}
 		}
+	case "net.Conn.Close":
+		// trusted: closes the connection (ghost: connClosed(conn)); may report an error
+		return func(ex *Exec, s *State, instr ssa.Instruction, args []Val) callOut {
+			c := ex.asScalar(args[0])
+			arr := s.heapCur("|Conn:closed|", SArray(SRef, SBool))
+			s.heapSet("|Conn:closed|", Store(arr, IRef(c), TTrue))
+			e := s.declare(ex.g.fresh("cerr"), SIface)
+			ex.assumeWF(s, e, nil)
+			return callOut{v: Scalar{e}}
+		}
 	case "context.Context.Done":
 		return func(ex *Exec, s *State, instr ssa.Instruction, args []Val) callOut {
 			c := s.declare(ex.g.fresh("ctxdone"), SRef)
@@ -292,6 +302,11 @@ func (ex *Exec) intrinsic(f *ssa.Function) intrinsicFn {
 			// result (first non-nil error, or nil) is unconstrained
 			if p, ok := args[0].(PtrV); ok {
 				ex.nilCheck(s, instr, p.Base)
+			}
+			if p, ok := args[0].(PtrV); ok {
+				// ghost: the group has been waited for (waited(group))
+				arr := s.heapCur("|Group:waited|", SArray(SRef, SBool))
+				s.heapSet("|Group:waited|", Store(arr, p.Base, TTrue))
 			}
 			e := s.declare(ex.g.fresh("gerr"), SIface)
 			ex.assumeWF(s, e, nil)
